@@ -87,7 +87,7 @@ func TestC20(t *testing.T) {
 	if !lib.Thorough() {
 		maxLen = 2
 	}
-	rep.Rule = fmt.Sprintf("every string of length <=%d over {a,Z,7,-,_,.,/,space,é,U+2010,U+203F,U+20AC (a symbol),U+05D0 (a Hebrew letter)} as repo/label/context/split name; 3 KSUIDs; indices {0,1,9,10,999,1000,2^31,2^32,2^63-1,2^63,2^64-1}: every builder -> GetArchivePathComponents round trip, consumable paths, injectivity over all generated paths, validation vs the documented alphabet predicate, IsGeneratedFile over all <=3-component paths, YAML round trip of the product of representative field values of the 7 descriptor types; distinct = distinct paths / names / descriptors", maxLen)
+	rep.Rule = fmt.Sprintf("every string of length <=%d over {a,Z,7,-,_,.,/,space,é,U+2010,U+203F,U+20AC (a symbol),U+05D0 (a Hebrew letter)} as repo/label/context/split name; 3 KSUIDs; indices {0,1,9,10,999,1000,2^31,2^32,2^63-1,2^63,2^64-1}: every builder -> GetArchivePathComponents round trip, consumable paths (also for bundle IDs ending in each of the 62 KSUID characters), injectivity over all generated paths, validation vs the documented alphabet predicate, IsGeneratedFile over all <=3-component paths, YAML round trip of the product of representative field values of the 7 descriptor types; distinct = distinct paths / names / descriptors", maxLen)
 	all := c20strings(maxLen, c20alphabet)
 
 	// ---- validation
@@ -223,8 +223,12 @@ func TestC20(t *testing.T) {
 			}
 		}
 	}
-	// consumable store paths
-	for _, k := range ks {
+	// consumable store paths: the three IDs, and IDs ending in every character of the KSUID alphabet
+	cks := append([]string{}, ks...)
+	for _, c := range "0123456789ABCDEFGHIJKLMNOPQRSTUVWXYZabcdefghijklmnopqrstuvwxyz" {
+		cks = append(cks, ks[0][:len(ks[0])-1]+string(c), ks[1][:len(ks[1])-2]+string(c)+string(c))
+	}
+	for _, k := range cks {
 		c20try(rep, "C20|consumable|descriptor", k, func() {
 			p := model.GetConsumablePathToBundle(k)
 			info, err := model.GetConsumableStorePathMetadata(p)
